@@ -3,6 +3,8 @@
  */
 
 #include <ctype.h>
+#include <errno.h>
+#include <math.h>
 #include <stdlib.h>
 
 #include "convert.h"
@@ -28,7 +30,12 @@ extern int mpt_cdouble(double *val, const char *src, const double range[2])
 	if (!*src) {
 		return 0;
 	}
+	errno = 0;
 	tmp = strtod(src, &end);
+	/* finite numeral beyond the range of the type */
+	if (errno == ERANGE && (tmp == HUGE_VAL || tmp == -HUGE_VAL)) {
+		return MPT_ERROR(BadValue);
+	}
 	
 	if (end == src) {
 		/* accept space as empty string */
